@@ -31,7 +31,7 @@ MAP_TRAVERSAL = lambda k: _col(k) in ("width", "height", "has_padding", "literal
 
 PROPS["C12"] = {
     "level": "proof",
-    "rules": [p_symbols.tab_sym, p_symbols.ord_rule, p_symbols.prov_filter, only(p_macro.fnc1, lambda k: k.startswith("setter:") or k in ("setters-found", "builder-defaults"), "builder options are kept")],
+    "rules": [p_symbols.tab_sym, p_symbols.ord_rule, p_symbols.prov_filter, only(p_macro.fnc1, lambda k: k.startswith("setter:") or k in ("setters-found", "builder-defaults"), "builder options are kept"), only(p_wire.prov_pipe, lambda k: k == "encode:option:symbol_list", "the builder's symbol list reaches the encoder")],
     "explanation": "The property is a finite statement about literal tables and about which predicate each list "
                    "constructor/filter is wired to. TAB-SYM extracts the per-variant tables of SymbolSize from the typed "
                    "syntax tree (patterns pre-evaluated by rustc) and compares all 48 rows with ISO/IEC 16022 Table 7 / "
@@ -97,7 +97,7 @@ PROPS["C14"] = {
 
 PROPS["C13"] = {
     "level": "proof",
-    "rules": [p_modes.dom_mode, p_modes.fld_enc, p_modes.latch_use, only(p_macro.fnc1, lambda k: k.startswith("setter:") or k in ("setters-found", "builder-defaults"), "builder options are kept")],
+    "rules": [p_modes.dom_mode, p_modes.fld_enc, p_modes.latch_use, only(p_macro.fnc1, lambda k: k.startswith("setter:") or k in ("setters-found", "builder-defaults"), "builder options are kept"), only(p_wire.prov_pipe, lambda k: k == "encode:option:encodation_types", "the builder's mode subset reaches the encoder")],
     "explanation": "A latch for mode V is emitted only through latch_from_ascii(V) of a mode taken from the plan (FLD-ENC, LATCH-USE); "
                    "the plan names V only if a plan object for V was constructed, and every construction of PlanImpl::V / switch entry "
                    "(.., V) in add_switches is dominated by the true edge of enabled_modes.contains(V) with the same V, the start plan "
@@ -235,8 +235,8 @@ PROPS["C02"] = {
 
 PROPS["C01"] = {
     "level": "other",
-    "rules": [p_macro.fld_input, p_codec.tab_codec, p_b256.tab_b256, p_wire.prov_pipe, p_codec.dec_mode, p_endrules.end_x12, p_endrules.end_c40, p_endrules.end_edifact, only(p_plan.prov_plan, lambda k: k == "encoder-plan", "the plan the encoder follows"),
-              p_rs.prov_rsenc, p_rs.lfsr, p_rs.prov_rsdec, p_rs.syndromes, p_place.plc_rw, p_bitmap.render_geom, p_bitmap.parse_inv],
+    "rules": [p_macro.fld_input, p_codec.tab_codec, p_b256.tab_b256, only(p_wire.prov_pipe, lambda k: not k.startswith("encode:option:"), "data path; which options are passed is not a round-trip question"), p_codec.dec_mode, p_endrules.end_x12, p_endrules.end_c40, p_endrules.end_edifact, only(p_plan.prov_plan, lambda k: k == "encoder-plan", "the plan the encoder follows"),
+              p_rs.prov_rsenc, p_rs.lfsr, p_rs.prov_rsdec, p_rs.syndromes, p_place.plc_rt, p_bitmap.render_geom, p_bitmap.parse_accepts],
     "explanation": "Clause-level claim; the inverse law itself (equality of byte strings over all inputs and configurations) is not "
                    "decidable statically. Three structural necessary conditions are decided: FLD-INPUT - the encoder's read cursor "
                    "`.data` always stays a suffix of `.input` (every writer enumerated crate-wide), which backup() relies on; TAB-CODEC - "
